@@ -80,7 +80,10 @@ def judge_sequence(case, col):
     import a5
     for kind, v in case["seq"]:
         if kind == "int":
-            judge_n(v, record=False)
+            try:
+                judge_n(v, record=False)
+            except Violation as e:
+                raise Violation(e.kind + "_after_other_calls", case, observed=e.observed, expected=e.expected, note=f"for n={v}")
         elif kind == "float":
             try:
                 a5.u64_to_hex(float(v))
